@@ -531,6 +531,24 @@ func RunDriver(o DriverOpts) int {
 		"known_findings_hit":  knownHit,
 		"worker_processes":    len(runs),
 	}
+	fps := 0
+	for k := range total.Cover {
+		if strings.Contains(k, "/interleaving/") {
+			fps++
+		}
+	}
+	if fps > 0 {
+		cov["distinct_interleaving_fingerprints"] = fps
+	}
+	if hasRace {
+		libRaces := 0
+		for sgn := range total.Violations {
+			if strings.HasPrefix(sgn, "race:") {
+				libRaces++
+			}
+		}
+		cov["race_detector"] = map[string]any{"worker_processes": raceProcs, "raw_reports": total.Counters["race_reports_raw"], "deduplicated_reports_with_library_frame": libRaces}
+	}
 	if len(exhaustive) > 0 {
 		cov["exhaustive"] = true
 		cov["exhaustive_subspaces"] = exhaustive
